@@ -245,6 +245,11 @@ def history(ctx, steps, hashable=False, lkind='i', n=3):
             oks.append(r[0] == 'ok' and same(ctx, r[1], Ref(['x', 'y'], [[cur['x'][0]], yl], row(0))))
         elif st == 'ismono':
             a.axes['x'].is_monotonic()
+        elif st == 'sort':
+            from props.C07 import sorted_positions
+            so = sorted_positions(cur['x'])
+            r = ctx.call(lambda: a.sort_axis(axis='x'))
+            oks.append(r[0] == 'ok' and same(ctx, r[1], Ref(['x', 'y'], [[cur['x'][i] for i in so], yl], [c for i in so for c in row(i)])))
         elif st == 'copy':
             a = a.copy()
         elif st == 'T':
@@ -314,6 +319,11 @@ def history(ctx, steps, hashable=False, lkind='i', n=3):
     else:
         oks.append(r1 == ('exc', 'IndexError'))
     oks.append(cat.probe(ctx, a))
+    if 'sort' in steps:
+        from props.C07 import sorted_positions
+        so = sorted_positions(cur['x'])
+        r = ctx.call(lambda: a.sort_axis(axis='x'))
+        oks.append(r[0] == 'ok' and same(ctx, r[1], Ref(['x', 'y'], [[cur['x'][i] for i in so], yl], [c for i in so for c in row(i)])))
     obs.append(ctx.observe(a))
     return ctx.done(ctx.AND(*oks), obs, inplace=True)
 
@@ -411,6 +421,9 @@ def templates():
             add('history-two-relabels-%s-n%d' % (h, n), 'history', tier, cost=4 * m, steps=['lookup', 'relabel:attr', 'lookup', 'relabel:set_axis', 'ismono'], hashable=hashable, n=n)
             add('history-put-%s-n%d' % (h, n), 'history', tier, cost=3 * m, steps=['lookup', 'put', 'lookup-list', 'relabel:one', 'put'], hashable=hashable, n=n)
             add('history-T-%s-n%d' % (h, n), 'history', tier, cost=2 * m, steps=['ismono', 'T', 'relabel:labels', 'slice'], hashable=hashable, n=n)
+    for how in ('attr', 'axis-setitem', 'set_axis', 'one', 'labels'):
+        for hashable in (False, True):
+            add('history-sort-%s-%s' % (how, 'hashable' if hashable else 'symbolic'), 'history', cost=3, steps=['sort', 'relabel:' + how], hashable=hashable, n=3)
     for lk in 'fU':
         add('history-%s-relabel' % lk, 'history', cost=3, steps=['lookup', 'ismono', 'relabel:attr', 'slice'], lkind=lk, n=2)
         add('history-%s-relabel-one' % lk, 'history', cost=3, steps=['ismono', 'lookup-list', 'relabel:one'], lkind=lk, n=3)
